@@ -72,7 +72,7 @@ struct RawServer {
             if (b == B_CHUNKED) { resp = head + "Transfer-Encoding: chunked\r\n\r\n"; size_t pos = 0; Rng r((uint64_t)id); while (pos < body.size()) { size_t n = std::min<size_t>(body.size() - pos, (size_t)r.range(1, 300)); char hx[16]; snprintf(hx, sizeof hx, "%zx", n); resp += std::string(hx) + "\r\n" + body.substr(pos, n) + "\r\n"; pos += n; } resp += "0\r\n\r\n"; }
             else resp = head + "Content-Length: " + std::to_string(body.size()) + "\r\n\r\n" + body;
             if (b == B_NEVER) continue;
-            if (b == B_DELAYED) lv::msleep(10 + param % 40);
+            if (b == B_DELAYED) lv::msleep(param >= 600 && param < 640 ? param : 10 + param % 40);
             if (b == B_LATE) lv::msleep(param);   // param = client's time-out + margin
             respond(fd, resp, b == B_DRIBBLE);
             { std::lock_guard<std::mutex> g(m); log[li].answered = true; }
@@ -91,7 +91,8 @@ static void c15_batch(long idx, long n, uint64_t seed) {
         Rng r(seed);
         RawServer srv; srv.start();
         int threads = r.range(1, 4), maxConn = r.range(1, 8), nreq = r.range(1, 64);
-        int scenario = (int)(n % 4);   // 0 only answering behaviours, 1 with never-answered + time-outs, 2 with late answers, 3 close-after mix
+        int scenario = (int)(n % 5);   // 0 only answering behaviours, 1 with never-answered + time-outs, 2 with late answers, 3 close-after mix,
+                                       // 4 answered requests that carry a time-out followed by slow requests without one
         Http::Experimental::Client client;
         client.init(Http::Experimental::Client::options().threads(threads).maxConnectionsPerHost(maxConn));
         std::vector<std::unique_ptr<Outcome>> out; std::vector<int> beh((size_t)nreq), timeoutMs((size_t)nreq, 0);
@@ -104,10 +105,14 @@ static void c15_batch(long idx, long n, uint64_t seed) {
             if (scenario == 0) b = r.range(0, 3);
             else if (scenario == 1) b = r.chance(1, 5) ? B_NEVER : r.range(0, 3);
             else if (scenario == 2) b = r.chance(1, 4) ? B_LATE : r.range(0, 3);
-            else b = r.chance(1, 4) ? B_CLOSE_AFTER : r.range(0, 3);
+            else if (scenario == 3) b = r.chance(1, 4) ? B_CLOSE_AFTER : r.range(0, 3);
+            else b = r.chance(1, 2) ? B_IMMEDIATE : B_DELAYED;
             beh[(size_t)k] = b;
             int param = r.range(0, 1500);
             int to = 0;
+            // scenario 4: a time-out that is NOT reached (answered at once) on one request, then a slow request without any
+            // time-out on the same connection: the first request's timer must be gone by then
+            if (scenario == 4) { if (b == B_IMMEDIATE) to = 250; else param = 600 + r.range(0, 39); }
             if (b == B_NEVER) to = 400;
             if (b == B_LATE) { to = 200; param = 600; }
             timeoutMs[(size_t)k] = to;
@@ -129,6 +134,16 @@ static void c15_batch(long idx, long n, uint64_t seed) {
         double hardEnd = lv::now() + 20.0 * lf;
         while (!allSettled() && lv::now() < hardEnd) { lv::msleep(10); if (lv::now() - srv.lastActivity.load() > 3.0 * lf && lv::now() - srv.lastActivity.load() < 1e6 && srv.lastActivity.load() > 0) break; }
         lv::msleep(50);
+        // second wave: once the batch has drained, further requests through the same client must still be served
+        // (connections handed back to the pool, nothing left claimed)
+        int wave2 = (allSettled() && scenario != 2 && scenario != 3) ? 3 : 0;
+        for (int k = 0; k < wave2; k++) {
+            out.emplace_back(new Outcome()); beh.push_back(B_IMMEDIATE); timeoutMs.push_back(0);
+            Outcome* o = out.back().get(); int id = nreq + k;
+            try { client.get(base + "/t/" + std::to_string(id) + "/0/5").send().then([o](Http::Response resp) { int t = -1; sscanf(resp.body().c_str(), "tag=%d;", &t); o->tag = t; o->status = (int)resp.code(); o->fulfilled++; }, [o](std::exception_ptr) { o->rejected++; }); }
+            catch (const std::exception& e) { o->err = e.what(); o->rejected++; }
+        }
+        if (wave2) { nreq += wave2; double e2 = lv::now() + 5.0 * lf; while (!allSettled() && lv::now() < e2) lv::msleep(10); }
         std::vector<ReqLog> log; std::vector<std::string> gerr; { std::lock_guard<std::mutex> g(srv.m); log = srv.log; gerr = srv.grammarErrors; }
         std::map<int, ReqLog> byId; for (auto& l : log) byId[l.id] = l;
         // which connection served a late-answered, timed-out request just before?
@@ -188,7 +203,7 @@ static void run_c15(long cases) {
     for (long n = 0; n < cases; n++) {
         long idx = g_opts.shard * 100000L + n;
         uint64_t seed = r.next();
-        int scenario = (int)(n % 4);
+        int scenario = (int)(n % 5);
         pid_t pid = fork();
         if (pid == 0) { c15_batch(idx, n, seed); _exit(0); }
         double end = lv::now() + 25.0 * lv::load_factor(); int status = 0; bool exited = false;
